@@ -24,6 +24,7 @@ PROPS = {
         "modelled": "wsConn.onPing/onPong/onClose/readPacket/Write routing, tcpConn path by identity",
     },
     "C06": {
+        "crash_is_violation": True,
         "design_ref": "DESIGN.md section 6 (C06)",
         "projection": "completion (result class, wall-clock bound, panic) of every request call; final lifecycle observables",
         "mismatch_is_input": True,
@@ -34,6 +35,7 @@ PROPS = {
         "modelled": "client.Do/recv/deadline, waiter sweep on reconnectDial, Close/closeOnce, reconnecting loop phases, conn slot never nil after Dial",
     },
     "C14": {
+        "crash_is_violation": True,
         "design_ref": "DESIGN.md section 6 (C14)",
         "projection": "close callbacks, reconnect callbacks, connections and open sockets at the peer, connection goroutines",
         "mismatch_is_input": True,
